@@ -114,7 +114,7 @@ func drawChunks(t *rapid.T, label string, size int) []int {
 	return c
 }
 
-var plainKinds = []string{"write-msg", "writer", "writer", "writer-fail", "shared-send", "send-close", "read-data", "read-msg", "reader", "ping", "ping", "pong", "compiled"}
+var plainKinds = []string{"write-msg", "writer", "writer", "writer-fail", "ownbuf", "shared-send", "send-close", "read-data", "read-msg", "reader", "ping", "ping", "pong", "compiled"}
 var flateKinds = []string{"flate-send", "flate-recv", "flate-writer", "flate-reader"}
 
 // drawTemplate draws the shape of a session. light = layer 2 (many sessions per case).
@@ -387,6 +387,10 @@ type session struct {
 	helper wsflate.Helper
 	ext    wsflate.Extension
 	closed bool
+	ownBuf []byte    // caller-owned Writer buffer whose capacity is a pool class
+	ownW   *wsutil.Writer
+	ownRec *tx.Rec
+	ownMsg []byte
 	kept   []keptBuf // caller-owned buffers handed to write calls; they stay the session's
 
 	overlap bool   // layer 2: another session was inside a step at the same time
@@ -448,6 +452,11 @@ func newSession(id int, tp *template) *session {
 		case "writer-fail":
 			o.fam, o.class = "writer", sizeClass(sp.WSize)
 			s.ops = append(s.ops, o)
+		case "ownbuf":
+			o.fam, o.class = "ownbuf", sizeClass(sp.WSize)
+			a, b, c := o, o, o
+			a.name, b.name, c.name = "ownbuf-grow", "ownbuf-reuse-write", "ownbuf-reuse-flush"
+			s.ops = append(s.ops, a, b, c)
 		case "flate-writer":
 			a, b := o, o
 			a.name, b.name = "flate-writer-write", "flate-writer-flush"
@@ -921,6 +930,67 @@ func (s *session) stepWriterFail(o op) {
 	s.logf("size=%d n=%d err=%s flush=%s accepted=%d", w.Size(), n, renderErr(err), renderErr(ferr), rec.Len())
 	s.expect(err != nil && ferr != nil, "a Writer over a failing destination reports no error (Write: %v, Flush: %v)", err, ferr)
 	wsutil.PutWriter(w)
+}
+
+// --- a Writer over a buffer the session owns ---------------------------------
+//
+// The session gives NewWriterBuffer a slice of its own whose capacity is a
+// pool size class, disables flushing and writes more than fits, so the Writer
+// outgrows the slice. The slice stays the session's: it is filled with a
+// pattern and watched (checkKept) while other sessions run, then used again
+// for the next message, with other sessions' steps between Write and Flush.
+
+func (s *session) keepPattern(tag int, where string) {
+	copy(s.ownBuf, content(s.id, tag, len(s.ownBuf), false))
+	s.kept = append(s.kept, keptBuf{s.ownBuf, digest(s.ownBuf), where})
+}
+
+func (s *session) unkeepOwnBuf() {
+	for i := range s.kept {
+		if len(s.kept[i].p) > 0 && len(s.ownBuf) > 0 && &s.kept[i].p[0] == &s.ownBuf[0] {
+			s.kept = append(s.kept[:i:i], s.kept[i+1:]...)
+			return
+		}
+	}
+}
+
+func (s *session) stepOwnbufGrow(o op) {
+	wop, rop := s.opcode(o.spec)
+	class := sizeClass(o.spec.WSize)
+	s.ownBuf = make([]byte, class)
+	rec := tx.NewRec()
+	w := wsutil.NewWriterBuffer(s.dst(rec), s.state, wop, s.ownBuf)
+	w.DisableFlush()
+	p := content(s.id, 1000+o.idx*16, class+class/2+o.spec.Size%64, o.spec.Text)
+	half := len(p) / 2
+	n1, err1 := w.Write(p[:half])
+	n2, err2 := w.Write(p[half:])
+	err := w.Flush()
+	s.logf("class=%d n=%d+%d err=%s,%s flush=%s size-after=%t wrote=%s", class, n1, n2, renderErr(err1), renderErr(err2), renderErr(err), w.Size() >= len(p), renderWire(rec.Bytes()))
+	got, ok := wirePayload(rec.Bytes(), rop, s.tpl.Client)
+	s.expect(err == nil && ok && bytes.Equal(got, p), "Writer with DisableFlush over an own %d-byte buffer: the wire does not carry the %d-byte message", class, len(p))
+	// the Writer has outgrown the slice; it is the session's again
+	s.keepPattern(1001+o.idx*16, fmt.Sprintf("the %d-byte buffer given to NewWriterBuffer at step %d (outgrown by the Writer, refilled by the session)", class, s.pc))
+}
+
+func (s *session) stepOwnbufReuseWrite(o op) {
+	wop, _ := s.opcode(o.spec)
+	s.unkeepOwnBuf()
+	s.ownRec = tx.NewRec()
+	s.ownW = wsutil.NewWriterBuffer(s.dst(s.ownRec), s.state, wop, s.ownBuf)
+	s.ownMsg = content(s.id, 1002+o.idx*16, len(s.ownBuf)/2, o.spec.Text)
+	n, err := s.ownW.Write(s.ownMsg)
+	s.logf("n=%d err=%s buffered=%d sent-so-far=%d", n, renderErr(err), s.ownW.Buffered(), s.ownRec.Len())
+}
+
+func (s *session) stepOwnbufReuseFlush(o op) {
+	_, rop := s.opcode(o.spec)
+	err := s.ownW.Flush()
+	s.logf("err=%s wrote=%s", renderErr(err), renderWire(s.ownRec.Bytes()))
+	got, ok := wirePayload(s.ownRec.Bytes(), rop, s.tpl.Client)
+	s.expect(err == nil && ok && bytes.Equal(got, s.ownMsg), "Writer over the session's own buffer: the wire does not carry the %d bytes written before other sessions ran", len(s.ownMsg))
+	s.ownW = nil
+	s.keepPattern(1003+o.idx*16, fmt.Sprintf("the %d-byte buffer given to NewWriterBuffer (after its second message, refilled by the session)", len(s.ownBuf)))
 }
 
 // stepSendClose builds a close frame the documented way and sends it; the
@@ -1490,6 +1560,12 @@ func (s *session) step() {
 			s.stepWriterPut(o)
 		case "writer-fail":
 			s.stepWriterFail(o)
+		case "ownbuf-grow":
+			s.stepOwnbufGrow(o)
+		case "ownbuf-reuse-write":
+			s.stepOwnbufReuseWrite(o)
+		case "ownbuf-reuse-flush":
+			s.stepOwnbufReuseFlush(o)
 		case "shared-send":
 			s.stepSharedSend(o)
 		case "send-close":
